@@ -66,9 +66,9 @@ const (
 	verifC18HalfA6    = "half-aaaa-fails.example" // AAAA lookup failed, A answered: no record
 	verifC18HalfGood4 = "half-aaaa-fails-a-found.example"
 	verifC18HalfGood6 = "half-a-fails-aaaa-found.example"
-	verifC18Unknown  = "unknown.example"   // probe fails (both families error)
-	verifC18Lit4     = "93.184.216.34"
-	verifC18Lit6     = "2606:4700::1111"
+	verifC18Unknown   = "unknown.example" // probe fails (both families error)
+	verifC18Lit4      = "93.184.216.34"
+	verifC18Lit6      = "2606:4700::1111"
 )
 
 func verifC18Classes() []verifC18Sniff {
@@ -363,6 +363,10 @@ func (verifC18Forwarder) ForwardDNS(ctx context.Context, data []byte) (*dnsmessa
 	if err := req.Unpack(data); err != nil {
 		return nil, err
 	}
+	if planned, ok := verifC18PlannedReply(&req); ok {
+		// scripted answers of the reload histories (c18_reload_verif_test.go)
+		return planned, nil
+	}
 	q := req.Question[0]
 	var resp *dnsmessage.Msg
 	if q.Qtype == dnsmessage.TypeA {
@@ -471,9 +475,10 @@ func verifC18Setup(m *vk.Monitor) (env *verifC18Env, cleanup func(), ok bool) {
 			// with that very address and never touches the network
 			return netutils.ResolveIp46(ctx, d, server, host, network, race)
 		}
-		if strings.HasSuffix(host, "."+verifC18HistSuffix) {
-			// control names of the connection histories (c18_attempts_verif_test.go)
-			if strings.HasPrefix(host, "v") {
+		if hn := strings.TrimSuffix(strings.ToLower(host), "."); strings.HasSuffix(hn, "."+verifC18HistSuffix) {
+			// control names of the connection histories (c18_attempts_verif_test.go) and of the
+			// reload histories (c18_reload_verif_test.go), in whatever spelling they are asked
+			if strings.HasPrefix(hn, "v") {
 				return &netutils.Ip46{Ip4: netip.MustParseAddr("203.0.113.77")}, nil, nil
 			}
 			return &netutils.Ip46{}, nil, nil
@@ -609,12 +614,14 @@ func TestVerifC18(t *testing.T) {
 			"connection histories (4 connections per sniffed value and outbound, dae's asynchronous real-domain probe completing between the 1st and the later ones, every connection judged) over a systematic sweep of IP-literal forms "+
 			"(first character 0-9/a-f/A-F/':'/'[', compressed/uncompressed/zero-padded, IPv4-mapped, zone, bracketed, with port, raw and via sniffing.NormalizeDomain) and hex-looking host names; "+
 			"dial attempt sequences at routeDial with the first node dial failing (8 fault classes), every attempt's address and group judged; "+
+			"reload histories: names resolved through the DNS request path (scoped cache keys from production dns routing, question spelled lower/UPPER/mIxEd), then generation changes (clone+restore into a fresh controller, rollback self-restore, staged reuse of the shared store; optionally with other dns routing), janitor runs, size eviction, waiting, re-resolution, and after every step the dial target of every name x address type x destination x spelling (6) in all four modes; "+
 			"distinct = one per table cell (mode, outbound, family, port, class) and per (mode, family, shape) of random names; every cell is non-trivial (it is compared with the decision table)")
 	m.Assume("decision table verifC18Table is the property statement; where the statement is silent (re-route in domain mode, dialIp for name targets, which port survives for name:port / literal:port, case/trailing-dot variants of genuine names, names whose resolution returned an empty answer, A-only names asked for an IPv6 destination, degenerate strings) the outcome is recorded, not judged",
 		"domain+ does not re-route ('in domain++ additionally the flow is routed again')",
 		"genuine names are created by production code only: NormalizeAndCacheDnsResp_ / HandleWithResponseWriter_ (resolved through dae, TTL 3600 s so no deadline is near) and the real-domain probe started by ChooseDialTarget with the resolver seam resolveIp46ForRealDomainProbe replaced; realDomainNegativeCacheTTL is raised to 1 h for the run",
 		"connection histories: the probe resolver seam answers a query for an IP-literal host through the production netutils.ResolveIp46 (answered locally, no network), control names *.hist.test are scripted; waiting between the connections is a barrier (what the later connections can expose), never a verdict; a zoned literal (fe80::1%eth0) counts as an IP literal",
 		"dial attempts: node dialers inside production DialerGroups (one group with two nodes and the random policy) are scripted; whether routeDial tries again after a fault is recorded, not judged; each attempt that is made must carry the address the statement demands and go to a group the flow may use; the result's SniffedDomain field is recorded only",
+		"reload histories: 'resolved through dae' is the monitor's own record of a fresh answer given to a client (request bracket, scripted original TTL, unique address); a name must be dialled in domain mode only while such a record is certainly not over AND the current generation's DNS cache still holds that very answer (found by its address; so the demand never exceeds what dae's own carried-over state implies), must not be dialled when no record exists or every record is certainly over (30 ms guard; the real-domain probe verdict of every spelling is settled negative in every generation), everything else is counted; names are compared case-insensitively and modulo one trailing dot; a generation's ControlPlane value is built by hand and the hand-over calls are the ones the daemon makes (CloneDnsCache, pendingDnsReloadCache + replayDnsReloadCache, reuseDNSControllerFrom with SetDNSHandoffController), bpf callbacks are no-ops",
 		"level 2 builds the ControlPlane value by hand (outbound groups with recording fake node dialers, routing matcher compiled from text through the production optimiser pipeline); newControlPlane needs a datapath and is not executed")
 
 	env, cleanup, ok := verifC18Setup(m)
@@ -753,7 +760,17 @@ func TestVerifC18(t *testing.T) {
 		"attempts_fault_ENETUNREACH_dials_2", "attempts_fault_message-network-is-unreachable_dials_2", "attempts_fault_message-no-suitable-address_dials_2")
 
 	verifC18ViaSniffer(m, cp)
+	// both history families mostly wait for TTLs to run out: run them side by side
+	tK := time.Now()
+	var hwg sync.WaitGroup
+	hwg.Add(1)
+	go func() {
+		defer hwg.Done()
+		verifC18ReloadHistories(m)
+	}()
 	verifC18KnowledgeHistories(m)
+	hwg.Wait()
+	m.Set("info_wall_ms_knowledge_and_reload_histories", time.Since(tK).Milliseconds())
 	m.Require("knowledge_probe_inside_original_ttl", "knowledge_probe_after_every_original_ttl", "knowledge_sibling_removed")
 	m.Require("table_expect_dst", "table_expect_name", "table_expect_literal", "table_expect_either", "table_expect_name-anyport", "table_expect_literal-anyport",
 		"random_names_dst", "random_names_name", "judged_fixed_ttl0_known_until_original_ttl", "l2_rerouted_to_other_group", "l2_rerouted_to_builtin_dials_dst", "l2_dialer_received_name", "l2_dialer_received_dst")
